@@ -132,8 +132,8 @@ class Stack:
         for name in load:
             self.load(name)
 
-    def load(self, name, transform=None):
-        mod = loader.load("thejoker/%s.py" % name, self.shims, "thejoker.%s" % name, transform=transform)
+    def load(self, name, transform=None, extra=None):
+        mod = loader.load("thejoker/%s.py" % name, self.shims, "thejoker.%s" % name, transform=transform, extra=extra)
         self.shims["thejoker.%s" % name] = mod
         self.mods[name] = mod
         setattr(self, name, mod)
